@@ -9,6 +9,13 @@ or datetime64) followed by sequences of `set_dtg_ref(x | None | non-datetime)`, 
 compared as state: an implementation may cache more or less, what it caches must equal reference + time -- an oracle).  Times / instants are multiples of
 1/64 s (= 15625 us, dyadic): `timedelta(seconds=.)`, `total_seconds()` and the float additions are exact there.  All histories up
 to length 3 (quick) / 4 (thorough) over a 7-letter alphabet are enumerated for every constructor, plus seeded random ones.
+SHARED TIME ARRAY (`shared.run`, `shared.real`): 2-5 series constructed from ONE time array object (plain float64, a row of a 2-D
+block as the TsDB readers pass it, a strided view, float32, int64, the same array as time and data, the live `.t` of the previous
+series, one array of datetime / datetime64 stamps, or read back from one .ts/.dat/.pkl file through TsDB) with equal / different / no
+references, followed by an INTERLEAVED history (operations addressed to any of the series, + "spawn" = construct a further series from
+the live `.t` and reference of one of them).  Every series is compared with the model run on its OWN operations only (objects are
+independent: an operation on one series is no operation on the others; also its state at the end of the whole history), and after
+every step every other series must have kept reference and relative times.
 Also `TsDB._check_time_arrays`' reference rule (`dtg.refs`).
 Search: the property's clauses on the implementation alone, on the exact histories (tolerance 0) and on realistic float
 histories (decimal time steps, arbitrary microsecond instants; tolerance 2 us = datetime resolution + float rounding).
@@ -27,7 +34,11 @@ from ..core import rat
 RULE = ("constructor kind (floats without/with reference, reference as datetime or datetime64; datetime stamps; datetime64[us|ms|s] "
         "stamps; each with/without explicit reference) x ALL histories of length <= 3 (quick) / 4 (thorough) over {set(x1), set(x2), "
         "set(None), set(non-datetime), copy, copy(newname=..), read dtg_time} + seeded random histories (length <= 10, 1-20 samples, instants multiple of "
-        "1/64 s; copy steps drawn from copy() / copy.copy / copy(newname=) / copy(name) / deepcopy / TsDB.copy) + realistic float histories (decimal steps, arbitrary us instants); non-trivial = the history contains a successful "
+        "1/64 s; copy steps drawn from copy() / copy.copy / copy(newname=) / copy(name) / deepcopy / TsDB.copy) + realistic float histories (decimal steps, arbitrary us instants); SHARED: 2-5 series built from one time array object "
+        "(float64 / row of a 2-D block / strided view / float32 / int64 / same array as data / live .t of the previous series / datetime or "
+        "datetime64 stamps / read back from one .ts|.dat|.pkl file) x reference patterns (same, different, none) x ALL interleaved histories "
+        "of length <= 2 (thorough: 3 for the main sources) over {set(x), set(None), read, copy, spawn a series from .t} x {series 0, 1} + seeded random "
+        "interleaved histories; non-trivial = the history contains a successful "
         "re-referencing of a series that has a reference; distinct by (constructor, data, history)")
 
 EPOCH = datetime(2000, 1, 1)
@@ -209,6 +220,93 @@ def same_raw(a, b):
 # ------------------------------------------------------------------------------------------------------------------------------
 # one history on the implementation: trace for the correspondence + the property's clauses
 # ------------------------------------------------------------------------------------------------------------------------------
+def step(ts, op, k, fail, tol):
+    """One operation of a history on the series `ts` + the property's clauses about this step.
+    Returns dict(ts = the series the history continues with (the copy after a copy step), res "ok"/"err", ret = value returned by a
+    dtg_time read, nontrivial, orig = (object left behind by a copy step, its raw state) or None, a_post = absolute instants after)."""
+    nontrivial, orig = False, None
+    pre = raw(ts)
+    a_pre = fresh_abs(pre[0], pre[1])
+    st_pre = None if a_pre is None else a_pre[0]
+    where = "step %d (%s)" % (k + 1, op)
+    err, ret, new, want_name = None, None, ts, None
+    is_copy = op.startswith("copy")
+    try:
+        if is_copy:
+            new, want_name = do_copy(ts, op, k)
+        elif op == "read":
+            ret = ts.dtg_time
+        elif op == "set:-":
+            ts.set_dtg_ref()
+        elif op.startswith("set:bad:"):
+            ts.set_dtg_ref(bad_value(op.split(":")[2]))
+        elif op.startswith("set:aware:"):
+            ts.set_dtg_ref(inst(Fraction(op.split(":")[2])).replace(tzinfo=timezone.utc))
+        else:
+            ts.set_dtg_ref(inst(Fraction(op.split(":", 1)[1])))
+    except Exception as e:
+        err = e
+    invalid = op.startswith("set:bad:") or (op == "set:-" and pre[0] is None)
+    if err is not None:
+        if is_copy:
+            fail("copying a series succeeds (the copy then has the same absolute instants)", "a copy",
+                 "%s: %s" % (type(err).__name__, str(err)[:200]), "copy_raises@" + where)
+        if not same_raw(pre, raw(ts)):
+            fail("a rejected call (%s) leaves reference, relative times and cached stamps untouched" % type(err).__name__,
+                 show(pre), show(raw(ts)), "rejected_unchanged@" + where)
+        return dict(ts=ts, res="err", ret=None, nontrivial=False, orig=None, a_post=None)
+    if invalid:
+        fail("an invalid reference (not a datetime / None without a reference) is rejected", "ValueError", "accepted",
+             "invalid_accepted@" + where)
+    if is_copy:
+        if not same_raw((pre[0], pre[1], None), (new.dtg_ref, np.array(new.t), None)):
+            fail("a copy has the same reference and relative times", show(pre[:2]), show(raw(new)[:2]), "copy_equal@" + where)
+        if new.name != want_name or not np.array_equal(np.asarray(new.x), np.asarray(ts.x)):
+            fail("a copy carries the requested (else the original) name and the same values", [want_name, show(ts.x)],
+                 [new.name, show(new.x)], "copy_name_values@" + where)
+        orig = (ts, raw(ts))
+        ts = new
+    post = raw(ts)
+    a_post = fresh_abs(post[0], post[1])
+    if a_pre is not None:
+        d = dist_us(a_pre, a_post)
+        if d > tol:
+            fail("reference + relative time of every sample is the same before and after %s" % (
+                "copying" if is_copy else "reading dtg_time" if op == "read" else "re-referencing to the series start"
+                if op == "set:-" else "re-referencing to an instant"), show(a_pre), show(a_post), "abs_invariant@" + where)
+        elif op.startswith("set:") and not np.array_equal(pre[1], post[1]):
+            nontrivial = True
+    if op.startswith("set:") and not invalid:
+        if pre[0] is None:
+            if not np.array_equal(pre[1], post[1]):
+                fail("setting a reference on a series that has none changes no relative time", show(pre[1]), show(post[1]),
+                     "set_on_none_keeps_t@" + where)
+        if op == "set:-":
+            if float(post[1][0]) != 0.0 or post[0] != st_pre:
+                fail("re-referencing to the series start: first relative time 0, reference = old start instant",
+                     [0.0, show(st_pre)], [float(post[1][0]), show(post[0])], "set_none_post@" + where)
+        else:
+            x = inst(Fraction(op.split(":")[-1]))
+            if post[0] is None or post[0] != x and not op.startswith("set:aware:"):
+                fail("after set_dtg_ref(x) the reference is x", show(x), show(post[0]), "set_ref_post@" + where)
+    if op == "read":
+        if (ret is None) != (post[0] is None) or (ret is not None and dist_us(list(ret), a_post) > tol):
+            fail("dtg_time returns reference + relative time of every sample (None without reference)", show(a_post), show(ret),
+                 "read@" + where)
+    if post[2] is not None and dist_us(post[2], a_post) > tol:
+        fail("cached stamps, when present, equal reference + relative time (no stale cache)", show(a_post), show(post[2]),
+             "cache_consistent@" + where)
+    try:
+        se = (ts.dtg_start, ts.dtg_end)
+    except Exception as e:
+        se = ("err:" + type(e).__name__,) * 2
+    want = (None, None) if a_post is None else (a_post[0], a_post[-1])
+    if dist_us([se[0]] if se[0] is not None else None, [want[0]] if want[0] is not None else None) > 0 or \
+            dist_us([se[1]] if se[1] is not None else None, [want[1]] if want[1] is not None else None) > 0:
+        fail("dtg_start / dtg_end are the first / last absolute instant", show(want), show(se), "start_end@" + where)
+    return dict(ts=ts, res="ok", ret=ret, nontrivial=nontrivial, orig=orig, a_post=a_post)
+
+
 def play(case, fail, tol):
     """Runs the history; calls fail(oracle_text, expected, observed, clause) for every violated clause.
     Returns (trace, nontrivial) with trace = "err:<Exc>" (constructor rejected) or [(res, snapshot)…]."""
@@ -232,89 +330,17 @@ def play(case, fail, tol):
                  show(a0), "from_floats")
     originals = []      # (object, raw state when it was left behind by copy)
     for k, op in enumerate(case["ops"]):
-        pre = raw(ts)
-        a_pre = fresh_abs(pre[0], pre[1])
-        st_pre = None if a_pre is None else a_pre[0]
-        where = "step %d (%s)" % (k + 1, op)
-        err, ret, new, want_name = None, None, ts, None
-        is_copy = op.startswith("copy")
-        try:
-            if is_copy:
-                new, want_name = do_copy(ts, op, k)
-            elif op == "read":
-                ret = ts.dtg_time
-            elif op == "set:-":
-                ts.set_dtg_ref()
-            elif op.startswith("set:bad:"):
-                ts.set_dtg_ref(bad_value(op.split(":")[2]))
-            elif op.startswith("set:aware:"):
-                ts.set_dtg_ref(inst(Fraction(op.split(":")[2])).replace(tzinfo=timezone.utc))
-            else:
-                ts.set_dtg_ref(inst(Fraction(op.split(":", 1)[1])))
-        except Exception as e:
-            err = e
-        invalid = op.startswith("set:bad:") or (op == "set:-" and pre[0] is None)
-        if err is not None:
-            if is_copy:
-                fail("copying a series succeeds (the copy then has the same absolute instants)", "a copy",
-                     "%s: %s" % (type(err).__name__, str(err)[:200]), "copy_raises@" + where)
-            if not same_raw(pre, raw(ts)):
-                fail("a rejected call (%s) leaves reference, relative times and cached stamps untouched" % type(err).__name__,
-                     show(pre), show(raw(ts)), "rejected_unchanged@" + where)
+        r = step(ts, op, k, fail, tol)
+        ts = r["ts"]
+        nontrivial = nontrivial or r["nontrivial"]
+        if r["orig"] is not None:
+            originals.append(r["orig"])
+        if r["res"] == "err":
             trace.append(("err", snap(ts)))
             continue
-        if invalid:
-            fail("an invalid reference (not a datetime / None without a reference) is rejected", "ValueError", "accepted",
-                 "invalid_accepted@" + where)
-        if is_copy:
-            if not same_raw((pre[0], pre[1], None), (new.dtg_ref, np.array(new.t), None)):
-                fail("a copy has the same reference and relative times", show(pre[:2]), show(raw(new)[:2]), "copy_equal@" + where)
-            if new.name != want_name or not np.array_equal(np.asarray(new.x), np.asarray(ts.x)):
-                fail("a copy carries the requested (else the original) name and the same values", [want_name, show(ts.x)],
-                     [new.name, show(new.x)], "copy_name_values@" + where)
-            originals.append((ts, raw(ts)))
-            ts = new
-        post = raw(ts)
-        a_post = fresh_abs(post[0], post[1])
-        if a_pre is not None:
-            d = dist_us(a_pre, a_post)
-            if d > tol:
-                fail("reference + relative time of every sample is the same before and after %s" % (
-                    "copying" if is_copy else "reading dtg_time" if op == "read" else "re-referencing to the series start"
-                    if op == "set:-" else "re-referencing to an instant"), show(a_pre), show(a_post), "abs_invariant@" + where)
-            elif op.startswith("set:") and not np.array_equal(pre[1], post[1]):
-                nontrivial = True
-        if op.startswith("set:") and not invalid:
-            if pre[0] is None:
-                if not np.array_equal(pre[1], post[1]):
-                    fail("setting a reference on a series that has none changes no relative time", show(pre[1]), show(post[1]),
-                         "set_on_none_keeps_t@" + where)
-            if op == "set:-":
-                if float(post[1][0]) != 0.0 or post[0] != st_pre:
-                    fail("re-referencing to the series start: first relative time 0, reference = old start instant",
-                         [0.0, show(st_pre)], [float(post[1][0]), show(post[0])], "set_none_post@" + where)
-            else:
-                x = inst(Fraction(op.split(":")[-1]))
-                if post[0] is None or post[0] != x and not op.startswith("set:aware:"):
-                    fail("after set_dtg_ref(x) the reference is x", show(x), show(post[0]), "set_ref_post@" + where)
-        if op == "read":
-            if (ret is None) != (post[0] is None) or (ret is not None and dist_us(list(ret), a_post) > tol):
-                fail("dtg_time returns reference + relative time of every sample (None without reference)", show(a_post), show(ret),
-                     "read@" + where)
-        if post[2] is not None and dist_us(post[2], a_post) > tol:
-            fail("cached stamps, when present, equal reference + relative time (no stale cache)", show(a_post), show(post[2]),
-                 "cache_consistent@" + where)
-        try:
-            se = (ts.dtg_start, ts.dtg_end)
-        except Exception as e:
-            se = ("err:" + type(e).__name__,) * 2
-        want = (None, None) if a_post is None else (a_post[0], a_post[-1])
-        if dist_us([se[0]] if se[0] is not None else None, [want[0]] if want[0] is not None else None) > 0 or \
-                dist_us([se[1]] if se[1] is not None else None, [want[1]] if want[1] is not None else None) > 0:
-            fail("dtg_start / dtg_end are the first / last absolute instant", show(want), show(se), "start_end@" + where)
-        if a0 is None and a_post is not None:
-            a0 = a_post
-        trace.append(("ok", snap(ts, ret)))
+        if a0 is None and r["a_post"] is not None:
+            a0 = r["a_post"]
+        trace.append(("ok", snap(ts, r["ret"])))
     # end of history: what the user reads now is what it was when the series first had a reference
     try:
         final = ts.dtg_time
@@ -431,6 +457,313 @@ def real_cases(chk, n):
         if rng.random() < 0.1:
             ops.insert(rng.randint(0, len(ops)), "set:aware:%s" % q())
         yield mk_case(ctor, vals, ref, ops, exact=False)
+
+
+# ------------------------------------------------------------------------------------------------------------------------------
+# several series built from ONE time array (what every TsDB reader does with the series of a file), histories interleaved
+# ------------------------------------------------------------------------------------------------------------------------------
+# a shared case: dict(kind="shared", src=<how the common time array is made>, vals=[str rational…], refs=[str|None per series],
+#                     refkind="dt"|"dt64", ops=[[i, op]…], exact=bool)
+#   op as in a plain history, or "spawn" = construct a further series from the live `.t` (and reference) of series i.
+#   After every step the operated series is held to the clauses of a plain history (`step`) and EVERY OTHER series (also the
+#   originals left behind by copy steps) must have the same reference and relative times -- hence instants -- as before.
+NUM_SRC = ("f64", "row", "strided", "f32", "int", "tx", "chain")      # numeric time arrays
+STAMP_SRC = ("dt", "us")                                               # one array of date-time stamps
+FILE_SRC = ("file.ts", "file.dat", "file.pkl")                         # written by TsDB.export, read back by TsDB.getl
+
+
+def build_shared(case):
+    """returns the list of series, all constructed from one and the same time array object"""
+    from qats import TimeSeries
+    vals = [Fraction(v) for v in case["vals"]]
+    n, src = len(vals), case["src"]
+    refs = [None if r is None else inst(Fraction(r)) for r in case["refs"]]
+    if case.get("refkind") == "dt64":
+        refs = [None if r is None else np.datetime64(r) for r in refs]
+    fl = [float(v) for v in vals]
+    xs = [np.arange(n, dtype=float) + i for i in range(len(refs))]
+    if src.startswith("file"):
+        import contextlib
+        import io
+        import os
+        import tempfile
+        from qats.tsdb import TsDB
+        with tempfile.TemporaryDirectory() as d:
+            db = TsDB()
+            for i in range(len(refs)):
+                db.add(TimeSeries("s%d" % i, np.array(fl), xs[i]))
+            path = os.path.join(d, "shared" + src[4:])
+            with contextlib.redirect_stdout(io.StringIO()):
+                db.export(path)
+                got = TsDB.fromfile(path).getl()
+        byname = dict((ts.name, ts) for ts in got)
+        out = [byname["s%d" % i] for i in range(len(refs))]
+        for ts, r in zip(out, refs):
+            if r is not None:
+                ts.set_dtg_ref(r)       # a series read from a file gets its reference afterwards
+        return out
+    if src == "f64" or src == "tx" or src == "chain":
+        t = np.array(fl)
+    elif src == "row":
+        data = np.vstack([np.array(fl)] + xs)
+        t, xs = data[0, :], [data[i + 1, :] for i in range(len(refs))]
+    elif src == "strided":
+        big = np.zeros(2 * n)
+        big[::2] = fl
+        t = big[::2]
+    elif src == "f32":
+        t = np.array(fl, dtype=np.float32)
+    elif src == "int":
+        t = np.array([int(v) for v in vals], dtype=np.int64)
+    elif src == "dt":
+        t = np.empty(n, dtype=object)
+        t[:] = [inst(v) for v in vals]
+    elif src == "us":
+        t = np.array([np.datetime64(inst(v)) for v in vals], dtype="datetime64[us]")
+    else:
+        raise ValueError("unknown source " + src)
+    out = []
+    for i, r in enumerate(refs):
+        if src == "chain" and i > 0:
+            t = out[-1].t               # the live time array of the previous series
+        out.append(TimeSeries("s%d" % i, t, t if src == "tx" else xs[i], dtg_ref=r))
+    return out
+
+
+def play_shared(case, fail, tol):
+    """Runs the interleaved history.  Returns (specs, nontrivial): specs = "err:<Exc>" or, per series (also spawned ones),
+    dict(ctor, ref, vals, ops, trace) = what it was constructed from, its own operations and its observed trace (+ final state)."""
+    from qats import TimeSeries
+    stamps = case["src"] in STAMP_SRC
+    try:
+        cur = build_shared(case)
+    except Exception as e:
+        return "err:" + ("empty" if len(case["vals"]) == 0 else type(e).__name__), False
+    specs = [dict(ctor="S" if stamps else "F", ref=r, vals=list(case["vals"]), ops=[], trace=[("ok", snap(ts))])
+             for ts, r in zip(cur, case["refs"])]
+    a0 = [fresh_abs(ts.dtg_ref, ts.t) for ts in cur]
+    for i, ts in enumerate(cur):
+        if stamps:
+            want = [inst(Fraction(v)) for v in case["vals"]]
+            if dist_us(a0[i], want) > tol:
+                fail("built from date-time stamps: reference + relative time of every sample equals its stamp", show(want), show(a0[i]),
+                     "s%d:from_stamps" % i)
+        elif case["refs"][i] is not None and not case["src"].startswith("file"):
+            want = fresh_abs(inst(Fraction(case["refs"][i])), [float(Fraction(v)) for v in case["vals"]])
+            if dist_us(a0[i], want) > tol:
+                fail("built from numbers and a reference: the absolute instants are the given reference + the given times", show(want),
+                     show(a0[i]), "s%d:from_floats" % i)
+    left = []           # (label, object) left behind by copy steps
+    nontrivial = False
+    for k, (i, op) in enumerate(case["ops"]):
+        if i >= len(cur):
+            continue
+        others = [("s%d" % j, o) for j, o in enumerate(cur) if j != i] + left
+        before = [(o.dtg_ref, np.array(o.t, dtype=float, copy=True)) for _, o in others]
+        where = "step %d (s%d.%s)" % (k + 1, i, op)
+        if op == "spawn":
+            p = cur[i]
+            pre = (p.dtg_ref, np.array(p.t, dtype=float, copy=True))
+            try:
+                new = TimeSeries("s%d" % len(cur), p.t, p.x, dtg_ref=p.dtg_ref)
+            except Exception as e:
+                fail("constructing a series from the time array and reference of another one succeeds", "a series",
+                     "%s: %s" % (type(e).__name__, str(e)[:200]), "spawn_raises@" + where)
+                continue
+            if new.dtg_ref != pre[0] or not np.array_equal(np.asarray(new.t), pre[1]):
+                fail("built from numbers and a reference: the absolute instants are the given reference + the given times",
+                     show(pre), show((new.dtg_ref, new.t)), "spawn_equal@" + where)
+            cur.append(new)
+            a0.append(fresh_abs(new.dtg_ref, new.t))
+            specs.append(dict(ctor="F", ref=None if pre[0] is None else str(uninst(pre[0])), vals=[str(Fraction(float(v))) for v in pre[1]],
+                              ops=[], trace=[("ok", snap(new))]))
+            others.append(("s%d" % i, p))
+            before.append(pre)
+        else:
+            r = step(cur[i], op, k, lambda o, e, ob, cl, i=i: fail(o, e, ob, "s%d:%s" % (i, cl)), tol)
+            if r["orig"] is not None:
+                left.append(("s%d before step %d" % (i, k + 1), r["orig"][0]))
+                others.append(left[-1])
+                before.append(r["orig"][1][:2])
+            cur[i] = r["ts"]
+            nontrivial = nontrivial or r["nontrivial"]
+            specs[i]["ops"].append(op)
+            if r["res"] == "err":
+                specs[i]["trace"].append(("err", snap(cur[i])))
+            else:
+                if a0[i] is None and r["a_post"] is not None:
+                    a0[i] = r["a_post"]
+                specs[i]["trace"].append(("ok", snap(cur[i], r["ret"])))
+        for (label, o), b in zip(others, before):
+            now = (o.dtg_ref, np.array(o.t, dtype=float, copy=True))
+            if now[0] == b[0] and (now[0] is None) == (b[0] is None) and np.array_equal(now[1], b[1]):
+                cache = getattr(o, "_dtg_time", None)
+                if cache is not None and now[0] is not None and dist_us(list(cache), fresh_abs(*now)) > tol:
+                    fail("cached stamps, when present, equal reference + relative time (no stale cache)", show(fresh_abs(*now)),
+                         show(list(cache)), "other_cache:%s@%s" % (label, where))
+                continue
+            if b[0] is not None:
+                fail("reference + relative time of every sample of a series is the same before and after an operation (re-referencing, "
+                     "copying, reading, construction) on ANOTHER series built from the same time array",
+                     dict(series=label, instants=show(fresh_abs(*b))), dict(series=label, instants=show(fresh_abs(*now))),
+                     "other_abs:%s@%s" % (label, where))
+            else:
+                fail("a series without reference keeps its relative times (and stays without reference) through an operation on "
+                     "ANOTHER series built from the same time array", dict(series=label, ref=None, t=show(b[1])),
+                     dict(series=label, ref=show(now[0]), t=show(now[1])), "other_t:%s@%s" % (label, where))
+    for i, ts in enumerate(cur):
+        try:
+            final = ts.dtg_time
+            final = None if final is None else list(final)
+        except Exception as e:
+            final = "err:" + type(e).__name__
+        if isinstance(final, str) or dist_us(final, a0[i]) > tol:
+            fail("after the whole history dtg_time still gives the instants the series had when it first got a reference", show(a0[i]),
+                 show(final), "s%d:history_end" % i)
+        specs[i]["trace"].append(("ok", snap(ts)))
+    return specs, nontrivial
+
+
+def spec_model(spec, o):
+    """model trace of one series of a shared case: its own operations only (the other series do not exist for the model:
+    objects are independent), + the state after the last one once more (compared with the state at the end of the whole history)"""
+    mod = parse_model(o, spec["ops"]) if not o.startswith("bad-op") else o
+    if isinstance(mod, str):
+        return mod
+    r, t, _, st, en = mod[-1][1]
+    return mod + [("ok", (r, t, None, st, en))]
+
+
+def mk_shared(src, vals, refs, ops, exact=True, refkind=None):
+    d = dict(kind="shared", src=src, vals=[str(v) for v in vals], refs=[None if r is None else str(r) for r in refs],
+             ops=[[int(i), o] for i, o in ops], exact=exact)
+    if refkind:
+        d["refkind"] = refkind
+    return d
+
+
+def enum_shared(chk):
+    """every source x reference pattern of two series x ALL interleaved histories of length <= 2 (thorough: <= 3 for the main sources)"""
+    R1, R2 = BASE + Fraction(7 * 64 + 5, 64), BASE + 3600
+    x1 = BASE - 3 + Fraction(5, 64)
+    for src in NUM_SRC + STAMP_SRC:
+        if src == "int":
+            vals = [3, 6, 13]
+        elif src in STAMP_SRC:
+            vals = [BASE + 10 + Fraction(k, 64) for k in (2, 3, 11)]
+        else:
+            vals = [Fraction(3, 64), Fraction(5, 64) + 1, Fraction(9, 64) + 4]
+        alpha = [(i, o) for i in (0, 1) for o in ("set:%s" % x1, "set:-", "read", "copy", "spawn")]
+        L = 2 if (chk.quick or src not in ("f64", "row", "chain", "dt")) else 3
+        for refs in ((R1, R1), (R1, None), (None, R1), (R1, R2), (None, None)):
+            for n in range(1, L + 1):
+                for w in itertools.product(alpha, repeat=n):
+                    yield mk_shared(src, vals, refs, w, refkind="dt64" if (src == "row" and refs[0] is not None) else None)
+
+
+def shared_ops(rng, q, nser, aware=False):
+    ops = []
+    for o in rand_ops(rng, q) + (rand_ops(rng, q) if rng.random() < 0.3 else []):
+        ops.append((rng.randrange(nser), o))
+        if rng.random() < 0.12:
+            ops.append((rng.randrange(nser), "spawn"))
+            nser += 1
+    if aware and rng.random() < 0.1:
+        ops.insert(rng.randint(0, len(ops)), (0, "set:aware:%s" % q()))
+    return ops
+
+
+def rand_shared(chk, n):
+    rng = chk.rng
+    for _ in range(n):
+        src = rng.choice(NUM_SRC + STAMP_SRC)
+        g = 64
+        q = lambda: BASE + Fraction(rng.randint(-400 * 86400 * g, 400 * 86400 * g), g)
+        m = rng.choice([1, 2, 3, 5, 8, 20])
+        if src in STAMP_SRC:
+            v, vals = q(), []
+            for _ in range(m):
+                vals.append(v)
+                v += Fraction(rng.randint(1, 5 * g), g)
+        elif src == "int":
+            v, vals = rng.randint(-3000, 3000), []
+            for _ in range(m):
+                vals.append(v)
+                v += rng.randint(1, 5)
+        else:
+            v, vals = Fraction(rng.randint(-3000 * g, 3000 * g), g), []
+            for _ in range(m):
+                vals.append(v)
+                v += Fraction(rng.randint(0 if rng.random() < 0.1 else 1, 5 * g), g)
+        nser = rng.choice([2, 2, 3, 4])
+        common = q()
+        refs = [rng.choice([None, common, common, q()]) for _ in range(nser)]
+        yield mk_shared(src, vals, refs, shared_ops(rng, q, nser), refkind=rng.choice([None, None, "dt64"]))
+
+
+def real_shared(chk, n):
+    """realistic: decimal time steps, arbitrary microsecond instants, series read back from one file (oracles only, 2 us)"""
+    rng = chk.rng
+    for k in range(n):
+        src = rng.choice(FILE_SRC) if k % 3 == 0 else rng.choice(("f64", "row", "strided", "tx", "chain", "dt", "us"))
+        q = lambda: BASE + Fraction(rng.randint(-300 * 86400 * 10 ** 6, 300 * 86400 * 10 ** 6), 10 ** 6)
+        m = rng.choice([2, 3, 10, 50])
+        if src in STAMP_SRC:
+            v, vals = q(), []
+            for _ in range(m):
+                vals.append(v)
+                v += Fraction(rng.randint(1, 3 * 10 ** 6), 10 ** 6)
+        else:
+            start = rng.choice([0.0, round(rng.uniform(-100, 1e5), rng.choice([1, 3])), round(rng.uniform(0, 10), 2)])
+            dt = rng.choice([0.1, 0.05, 0.25, 0.01, 2.5, 0.2])
+            vals = [Fraction(start + dt * i) for i in range(m)]
+        nser = rng.choice([2, 3, 5])
+        common = q()
+        refs = [rng.choice([None, common, common, q()]) for _ in range(nser)]
+        yield mk_shared(src, vals, refs, shared_ops(rng, q, nser, aware=True), exact=False)
+
+
+def run_shared(chk, drv):
+    corpus = [c for c in core.load_corpus("C18") if c.get("kind") == "shared"]
+    exact = [c for c in corpus if c.get("exact", True)] + list(enum_shared(chk)) + list(rand_shared(chk, 800 if chk.quick else 10000))
+    played, lines = [], []
+    for case in exact:
+        chk.count("shared.run")
+        fails = []
+        specs, nontrivial = play_shared(case, lambda *a: fails.append(a), 0.0)
+        for (oracle, exp, obs, clause) in fails:
+            chk.fail(oracle, case, exp, obs, clause=clause)
+        if nontrivial:
+            chk.nontriv(("shared", case["src"], tuple(case["vals"]), tuple(case["refs"]), tuple(map(tuple, case["ops"]))))
+        chk.dist("shared:" + case["src"])
+        if isinstance(specs, str):
+            chk.disagree("shared.run", case, "series constructed", specs)
+            continue
+        for j, sp in enumerate(specs):
+            played.append((case, j, sp))
+            lines.append(model_line(sp))
+    outs = drv.run(lines)
+    for (case, j, sp), o in zip(played, outs):
+        mod = spec_model(sp, o)
+        if sp["trace"] != mod:
+            if isinstance(mod, str):
+                chk.disagree("shared.run", dict(case, series=j), mod, show_trace(sp["trace"]))
+            else:
+                k = next((i for i, (a, b) in enumerate(zip(mod, sp["trace"])) if a != b), min(len(mod), len(sp["trace"])))
+                chk.disagree("shared.run", dict(case, series=j, own_ops=sp["ops"], first_difference_at_own_step=k),
+                             show_trace(mod[k:k + 1]), show_trace(sp["trace"][k:k + 1]))
+    for case in [c for c in corpus if not c.get("exact", True)] + list(real_shared(chk, 300 if chk.quick else 3000)):
+        chk.count("shared.real")
+        fails = []
+        specs, nontrivial = play_shared(case, lambda *a: fails.append(a), 2e-6)
+        for (oracle, exp, obs, clause) in fails:
+            chk.fail(oracle, case, exp, obs, clause=clause, tolerance_s=2e-6)
+        if isinstance(specs, str):
+            chk.fail("series can be constructed from one time array / read back from one file", case, "series", specs,
+                     clause="shared_build")
+        if nontrivial:
+            chk.nontriv(("shared.real", case["src"], tuple(case["vals"][:3]), tuple(case["refs"]), tuple(map(tuple, case["ops"]))))
+        chk.dist("shared.real:" + case["src"])
 
 
 # ------------------------------------------------------------------------------------------------------------------------------
@@ -572,6 +905,7 @@ def run(chk):
         d = measure_drift(case)
         drift = max(drift, d)
     chk.extra["max_drift_us"] = round(drift * 1e6, 3)
+    run_shared(chk, drv)
     check_refs(chk, drv)
     # nanosecond resolution: enforced once registered in known_findings.json (status known -> KNOWN-FINDING, fixed -> must hold)
     ns = ns_probe()
@@ -621,6 +955,24 @@ def show_trace(tr):
 
 def replay(rp):
     case = rp.get("input") or {}
+    if case.get("kind") == "shared":
+        fails = []
+        tol = 0.0 if case.get("exact", True) else 2e-6
+        specs, _ = play_shared(case, lambda *a: fails.append(a), tol)
+        print("series built from one time array:", case["src"], "refs", case["refs"], "interleaved ops", case["ops"])
+        if isinstance(specs, str):
+            print("   construction:", specs)
+            if not case.get("exact", True):
+                fails.append(("series can be constructed from one time array / read back from one file", "series", specs, "shared_build"))
+        else:
+            for j, sp in enumerate(specs):
+                print("   s%d built from %s ref %s times %s; own ops %s" % (j, sp["ctor"], sp["ref"], sp["vals"][:6], sp["ops"]))
+                for r, st in sp["trace"]:
+                    print("      ", r, "ref", show(st[0]), "t", show(st[1][:6]))
+        for (oracle, exp, obs, clause) in fails:
+            print("FAILS [%s]: %s\n   expected %s\n   observed %s" % (clause, oracle, exp, obs))
+        print("replay: %d failing clause(s)" % len(fails))
+        return 1 if fails else 0
     if "refs" in case:
         from qats import TimeSeries
         from qats.tsdb import TsDB
